@@ -6,7 +6,7 @@ from . import workload as W
 from . import sim as S
 from . import hazards as H
 
-MAIN_FAMILIES = ("ONE0", "ONE1", "DISJ", "CONF", "REUSE0", "REUSE1")
+MAIN_FAMILIES = ("ONE0", "ONE1", "DISJ", "CONF", "REUSE0", "REUSE1", "REUSE2")
 
 
 def make_case(seed, prop, index, families=MAIN_FAMILIES, flavours=S.FLAVOURS_MAIN, shapes=W.SHAPES,
@@ -31,6 +31,8 @@ def make_case(seed, prop, index, families=MAIN_FAMILIES, flavours=S.FLAVOURS_MAI
         case = g.case_disj(flavour, shape, n, seek=True)
     elif fam in ("REUSE0", "REUSE1"):
         case = g.case_reuse(flavour, shape, int(fam[-1]), n, base_side=rng.randrange(2))
+    elif fam == "REUSE2":
+        case = g.case_reuse(flavour, shape, 0, n, base_side=rng.randrange(2), two_sided=True)
     elif fam == "SWAP":
         case = g.case_swap(flavour, shape, n)
     elif fam == "CLASH":
@@ -52,7 +54,7 @@ def indices(ctx, total):
 
 
 def hazard_free_by_construction(case):
-    return case["family"] in ("ONE0", "ONE1", "DISJ", "CONF", "REUSE0", "REUSE1")
+    return case["family"] in ("ONE0", "ONE1", "DISJ", "CONF", "REUSE0", "REUSE1", "REUSE2")
 
 
 def classify(case):
